@@ -421,6 +421,11 @@ def c20_shell(rng, l=None, lmax=3, kmax=4, mmax=3, bits=8, sph=None, k=None):
                 s.exps.append(e)
                 s.coeffs.append([Fraction(rng.choice([-3, -2, -1, 1, 2, 3]), 4) for _ in s.coeffs[0]])
         s.exps, s.coeffs = s.exps[:k], s.coeffs[:k]
+        # truncating the primitive list may have cut the only non-zero coefficient of a column: an all-zero column is
+        # the zero function (no basis function, infinite normalisation) - not an input of the property
+        for col in range(len(s.coeffs[0])):
+            if all(row[col] == 0 for row in s.coeffs):
+                s.coeffs[rng.randrange(len(s.coeffs))][col] = Fraction(rng.choice([-3, -2, -1, 1, 2, 3]), 4)
     return s
 
 
